@@ -540,6 +540,17 @@ func checkStream(nm *names, out []byte, ops []Op, pre map[string]bool) []Viol {
 		want = append(want, e.op.ID)
 	}
 	if strings.Join(want, ",") != strings.Join(order, ",") {
+		for i := 0; i < len(want) || i < len(order); i++ {
+			if i >= len(want) || i >= len(order) || want[i] != order[i] {
+				if i < len(want) {
+					blame = append(blame, want[i])
+				}
+				if i < len(order) {
+					blame = append(blame, order[i])
+				}
+				break
+			}
+		}
 		add("ops-mismatch", "ops rendered %v, the history executes %v", order, want)
 	} else {
 		for _, e := range ref {
@@ -944,7 +955,10 @@ func randCase(r *rand.Rand) Case {
 // ---------------------------------------------------------------- reduction
 
 func size(cs Case) int {
-	n := len(cs.Pre) + 3*len(cs.Ctxs)
+	n := 2*len(cs.Pre) + 3*len(cs.Ctxs)
+	for _, p := range cs.Pre {
+		n += p
+	}
 	if cs.Mode == "http" {
 		n += 5
 	}
@@ -1172,6 +1186,13 @@ func reductions(cs Case) []Case {
 			c.Stream = false
 			add(c)
 		}
+		for i, p := range cs.Pre {
+			if p > 0 {
+				c := cloneCase(cs)
+				c.Pre[i] = 0
+				add(c)
+			}
+		}
 	}
 	if len(cs.Ctxs) > 1 {
 		for i := range cs.Ctxs {
@@ -1255,6 +1276,8 @@ func (e *engine) shrinkAll(fails []failure, viols []Viol) []failure {
 		cur[f.tag+" @ "+caseText(f.cs)] = f
 	}
 	dbg("blame slices that still fail: %d of %d; distinct %d", kept, len(fails), len(cur))
+	cur = capBySignature(cur)
+	dbg("after the per-signature cap: %d", len(cur))
 	const window = 60
 	offset := map[string]int{}
 	done := map[string]failure{}
@@ -1329,6 +1352,67 @@ func (e *engine) shrinkAll(fails []failure, viols []Viol) []failure {
 	return out
 }
 
+// signature groups failures that look alike (same rule, same op kinds, same
+// mode); only the perSignature smallest of a group are reduced, which bounds
+// the work when a defect makes almost every case fail, while every distinct
+// kind of failure is still reduced and reported.
+const perSignature = 20
+
+func signature(f failure) string {
+	kinds := map[string]bool{}
+	var walk func(ops []Op)
+	walk = func(ops []Op) {
+		for _, o := range ops {
+			kinds[o.K] = true
+			for _, e := range o.E {
+				kinds["cdyn:"+e.F] = true
+			}
+			walk(o.Sub)
+		}
+	}
+	for _, c := range f.cs.Ctxs {
+		walk(flat(c))
+	}
+	var ks []string
+	for k := range kinds {
+		ks = append(ks, k)
+	}
+	sort.Strings(ks)
+	nops := 0
+	for _, c := range f.cs.Ctxs {
+		nops += len(reference(flat(c)))
+	}
+	if nops > 6 { // big (unsliced) cases: their kind sets are all different
+		ks = []string{"big"}
+	}
+	return fmt.Sprintf("%s/%s/%d/%v", f.tag, f.cs.Mode, len(f.cs.Ctxs), ks)
+}
+
+func capBySignature(cur map[string]failure) map[string]failure {
+	groups := map[string][]string{}
+	for k, f := range cur {
+		sig := signature(f)
+		groups[sig] = append(groups[sig], k)
+	}
+	out := map[string]failure{}
+	for _, ks := range groups {
+		sort.Slice(ks, func(a, b int) bool {
+			sa, sb := size(cur[ks[a]].cs), size(cur[ks[b]].cs)
+			if sa != sb {
+				return sa < sb
+			}
+			return ks[a] < ks[b]
+		})
+		if len(ks) > perSignature {
+			ks = ks[:perSignature]
+		}
+		for _, k := range ks {
+			out[k] = cur[k]
+		}
+	}
+	return out
+}
+
 func dbg(f string, a ...any) {
 	if os.Getenv("VERIF_DEBUG") != "" {
 		fmt.Fprintf(os.Stderr, "[c12 %s] "+f+"\n", append([]any{time.Now().Format("15:04:05")}, a...)...)
@@ -1358,7 +1442,46 @@ func Run(c *core.Ctx) {
 		return
 	}
 
-	var cases []Case
+	var fails []failure
+	var failViols []Viol
+	nctx, nhttp, multi, maxOps, total := 0, 0, 0, 0, 0
+	// process evaluates one batch of (normalized) cases and collects every
+	// (case, violated rule) pair; the raw outputs of the batch are dropped.
+	process := func(cases []Case) {
+		e.cache = map[string]*result{}
+		got := e.evaluate(cases)
+		total += len(cases)
+		dbg("evaluated %d", total)
+		for i, cs := range cases {
+			c.Eval(1)
+			nctx += len(cs.Ctxs)
+			if cs.Mode == "http" {
+				nhttp++
+			}
+			if len(cs.Ctxs) > 1 {
+				multi++
+			}
+			for _, cx := range cs.Ctxs {
+				if n := len(reference(flat(cx))); n > maxOps {
+					maxOps = n
+				}
+			}
+			if repeated(cs) {
+				c.NontrivialStr(caseText(cs))
+				if (total-len(cases)+i)%20000 == 7 {
+					c.Sample(map[string]any{"history": caseText(cs), "violations": len(got[i])})
+				}
+			}
+			tags := map[string]bool{}
+			for _, v := range got[i] {
+				if !tags[v.Tag] {
+					tags[v.Tag] = true
+					fails = append(fails, failure{cs, v.Tag})
+					failViols = append(failViols, v)
+				}
+			}
+		}
+	}
 	single := func(ops []Op) Case {
 		return normalize(Case{Mode: "direct", Ctxs: []Ctx{{Chunks: [][]Op{ops}}}, Order: []int{0}})
 	}
@@ -1370,6 +1493,7 @@ func Run(c *core.Ctx) {
 			wrapped = append(wrapped, Op{K: "once", I: 0, Sub: []Op{a}}, Op{K: "box", Sub: []Op{a}}, Op{K: "comp", Sub: []Op{a}})
 		}
 	}
+	var cases []Case
 	for _, a := range wrapped {
 		cases = append(cases, single([]Op{a}))
 		for _, b := range wrapped {
@@ -1386,52 +1510,28 @@ func Run(c *core.Ctx) {
 		}
 	}
 	exh := len(cases)
+	process(cases)
 	r := c.Rand("histories")
-	nr := c.Pick(20000, 300000)
+	nr := c.Pick(60000, 1000000)
 	if os.Getenv("VERIF_C12_NORANDOM") != "" {
 		nr = 0
 	}
-	for i := 0; i < nr; i++ {
-		cases = append(cases, normalize(randCase(r)))
+	const batchSize = 50000
+	for done := 0; done < nr; {
+		n := batchSize
+		if nr-done < n {
+			n = nr - done
+		}
+		batch := make([]Case, 0, n)
+		for i := 0; i < n; i++ {
+			batch = append(batch, normalize(randCase(r)))
+		}
+		process(batch)
+		done += n
 	}
 	c.Set("exhaustive_histories", exh)
 	c.Set("random_cases", nr)
 	c.Set("op_atoms", len(as))
-	dbg("built; %d cases", len(cases))
-	got := e.evaluate(cases)
-	dbg("evaluated")
-	var fails []failure
-	var failViols []Viol
-	nctx, nhttp, multi, maxOps := 0, 0, 0, 0
-	for i, cs := range cases {
-		c.Eval(1)
-		nctx += len(cs.Ctxs)
-		if cs.Mode == "http" {
-			nhttp++
-		}
-		if len(cs.Ctxs) > 1 {
-			multi++
-		}
-		for _, cx := range cs.Ctxs {
-			if n := len(reference(flat(cx))); n > maxOps {
-				maxOps = n
-			}
-		}
-		if repeated(cs) {
-			c.NontrivialStr(caseText(cs))
-			if i%4000 == 7 {
-				c.Sample(map[string]any{"history": caseText(cs), "violations": len(got[i])})
-			}
-		}
-		tags := map[string]bool{}
-		for _, v := range got[i] {
-			if !tags[v.Tag] {
-				tags[v.Tag] = true
-				fails = append(fails, failure{cs, v.Tag})
-				failViols = append(failViols, v)
-			}
-		}
-	}
 	c.Set("contexts_rendered", nctx)
 	c.Set("middleware_cases", nhttp)
 	c.Set("multi_context_cases", multi)
@@ -1449,6 +1549,7 @@ func Run(c *core.Ctx) {
 		return
 	}
 	min := e.shrinkAll(fails, failViols)
+	c.Set("reduction_cap_per_signature", perSignature)
 	c.Set("canonical_witnesses", len(min))
 	for _, f := range min {
 		vs := e.evaluate([]Case{f.cs})[0]
